@@ -321,7 +321,7 @@ def run(ctx):
     chi = core.import_chi()
     quick = ctx.tier == 'quick'
     reduced_before_n_ids(ctx, chi, ctx.sub_rng(999))
-    n = 120 if quick else 1500
+    n = 120 if quick else 4000
     for i in range(n):
         ctx.guard(pop_objects, ctx, chi, ctx.sub_rng(4 * i), i)
         ctx.guard(hier_objects, ctx, chi, ctx.sub_rng(4 * i + 1), i)
